@@ -1,0 +1,30 @@
+//go:build verif
+
+// Contracts for package extensions, checked by /verif/govc (comment-only; compiled only under tag verif).
+package extensions
+
+//@ define grName(s) = len(s) >= 3 && s[len(s)-3] == '.' && s[len(s)-2] == 'g' && s[len(s)-1] == 'r' && forall(0, len(s)-3, func(k int) bool { return lexer.IsAlphaNum(s[k]) })
+
+//@ define ioUnrestricted() = unrestrictedIOs
+//@ define ioAllowed(name) = unrestrictedIOs || grName(name) || name == "grol.png"
+
+//@ func saveFunc
+//@   requires len(args) == 0 || isType(args[0], object.String)
+//@   nosafety
+//@   property C17
+//@ func loadFunc
+//@   requires len(args) == 0 || isType(args[0], object.String)
+//@   nosafety
+//@   property C17
+
+//@ func sanitizeFileName
+//@   requires len(args) == 0 || isType(args[0], object.String)
+//@   pure
+//@   ensures  noargs:: implies(len(args) == 0, result1 == nil && result0 == ".gr")
+//@   ensures  restricted:: implies(result1 == nil && !unrestrictedIOs, grName(result0))
+//@   ensures  emptyonly:: implies(result1 == nil && emptyOnly && !unrestrictedIOs, result0 == ".gr")
+//@   ensures  rejected:: implies(result1 != nil, result0 == "")
+//@   loop 1 invariant -1 <= rangeindex && rangeindex < len(f)
+//@   loop 1 invariant forall(0, rangeindex + 1, func(k int) bool { return lexer.IsAlphaNum(f[k]) })
+//@   loop 1 decreases len(f) - rangeindex
+//@   property C17
